@@ -66,12 +66,17 @@ func (a *application) start(mode gen.ApplicationMode, options gen.ApplicationOpt
 
 		pid, err := a.node.spawn(item.Factory, opts)
 		if err != nil {
+			// roll back. This run has not started: with the state back to
+			// 'loaded' and a neutral mode a.terminate only removes the killed
+			// members from the group (no mode rule of an earlier run, no second
+			// close of its 'stopped' channel, no Terminate callback)
+			a.mode = gen.ApplicationModeTemporary
+			atomic.StoreInt32(&a.state, int32(gen.ApplicationStateLoaded))
 			// Kill may terminate the member right here, which calls back into
 			// a.terminate and takes the group lock: do not kill under Range
 			for _, pid := range a.members() {
 				a.node.Kill(pid)
 			}
-			atomic.StoreInt32(&a.state, int32(gen.ApplicationStateLoaded))
 			return err
 		}
 
